@@ -212,7 +212,7 @@ func ruleFreshDecode(c *Ctx, rule string) {
 		}
 	}
 	c.NSites += nDecodes
-	if nLoopDecodes < 4 {
+	if nLoopDecodes < 2 {
 		c.undecided(rule, "floor:decodes-in-loops", token.NoPos, fmt.Sprintf("only %d JSON decodes inside loops found in internal/api (of %d decodes)", nLoopDecodes, nDecodes))
 	}
 }
